@@ -1117,7 +1117,7 @@ class Executor:
             func = "<%s as From<%s>>::from" % (m.group(2), m.group(1))
         # 0. per-query overrides of crate-local functions (stubs stated in the obligation)
         for pat, stub in self.overrides.items():
-            if pat in func:
+            if (re.search(pat, func) if pat.startswith("^") else pat in func):
                 self.stubs_used.add("override <- " + func[:90])
                 val = stub(self, st, args)
                 if dest is not None:
@@ -1291,6 +1291,26 @@ class Executor:
             if len(segs) >= 2:
                 tyname = segs[-2]
                 narrowed = [c for c in out if any(tyname in pt for _, pt in c.params) or tyname in c.ret or impl_type_of(c, self) == tyname]
+                if len(narrowed) == 1:
+                    return narrowed[0]
+            if m:
+                # trait method on `self`: the head of the first parameter's type must be the head of Self
+                def head(t):
+                    t = re.sub(r"^&(mut )?", "", norm_ty(t).strip())
+                    return re.split(r"[<\s]", t, 1)[0].split("::")[-1]
+                narrowed = [c for c in out if c.params and head(c.params[0][1]) == head(selfty)]
+                if len(narrowed) == 1:
+                    return narrowed[0]
+                # several traits with a method of this name: the impl header must name the trait
+                trait = head(m.group(2))
+                def names_trait(c):
+                    seg = [x for x in split_path(c.name) if x.startswith("<impl at")]
+                    try:
+                        hdr = self.source_span(*_span(seg[-1])) if seg else ""
+                    except Exception:
+                        hdr = ""
+                    return re.search(r"\b%s\b" % re.escape(trait), hdr) is not None
+                narrowed = [c for c in (narrowed or out) if names_trait(c)]
                 if len(narrowed) == 1:
                     return narrowed[0]
             raise Unsupported("ambiguous call target %s (%d candidates)" % (func, len(out)))
